@@ -435,7 +435,18 @@ def observe(env, case):
     try:
         with Patches(rec, case.get("json_point", "stringify")):
             if entry == "load_all":
-                it = ld.load_all(target)
+                try:
+                    it = ld.load_all(target)
+                except Exception as e:  # noqa: BLE001 - a generator function never raises at call time
+                    rec.log(["raised_at_call"] + rec.exn(e))
+                    it = iter(())
+                if not hasattr(it, "close"):
+                    class _Closed:
+                        def __init__(self, inner): self.inner = inner
+                        def __iter__(self): return self
+                        def __next__(self): return next(self.inner)
+                        def close(self): pass
+                    it = _Closed(it)
                 yielded = 0
 
                 def one_next():
@@ -470,13 +481,13 @@ def observe(env, case):
                         # the abandoned iterator, still referenced: observed, outside the property
                         rec.sync()
                         obs["abandoned"] = {"handles": [not h.closed for h in rec.handles],
-                                            "state": inspect.getgeneratorstate(it)}
+                                            "state": (inspect.getgeneratorstate(it) if inspect.isgenerator(it) else "NOT_A_GENERATOR")}
                         rec.log(["collect"])
                         it = None
                         gc.collect()
                         rec.sync()
                 rec.sync()
-                obs["outcome"] = ["iterator", inspect.getgeneratorstate(it) if it is not None else "GEN_COLLECTED"]
+                obs["outcome"] = ["iterator", (inspect.getgeneratorstate(it) if inspect.isgenerator(it) else "NOT_A_GENERATOR") if it is not None else "GEN_COLLECTED"]
             else:
                 try:
                     if entry == "load_asdict":
